@@ -85,8 +85,19 @@ class SimConnector(Connector):
         cmd = " ".join(command)
         if cmd.startswith("find -L"):
             total = 0
-            for p in re.findall(r'"([^"]+)"', cmd.split("-type")[0]):
+            paths = re.findall(r'"([^"]+)"', cmd.split("-type")[0])
+            for p in paths:
                 total += self.usage.get("/".join(p.strip("/").split("/")[-2:]), 0)
+            if self.usage.get("__fault__") and sim.tape.draw(8, "find.fault") == 7:
+                # command-channel fault: the size of the job directories cannot be measured
+                sim.fault("storage_usage_unmeasurable")
+                return ("find: cannot access: Input/output error", 2)
+            if paths:
+                spec = next((x for x in self.locs if x["name"] == location.name), None)
+                mount = os.sep if spec is not None and spec["kind"] == "slots" else "/" + paths[0].strip("/").split("/")[0]
+                sim.info.setdefault("measured", {})
+                key = (location.name, mount)
+                sim.info["measured"][key] = sim.info["measured"].get(key, 0.0) + total / MB
             return (str(total), 0) if capture_output else None
         if cmd.startswith("test -e"):
             p = command[2].strip("'\"")
@@ -225,15 +236,16 @@ def gen_scenario(t, max_jobs=10, with_recovery=True):
             run = t.draw(4, f"j{j}.a{a}.running") > 0     # goes RUNNING before its terminal status
             if last:
                 term = ("COMPLETED", "COMPLETED", "FAILED", "CANCELLED")[t.draw(4, f"j{j}.a{a}.term")]
-                path.append({"running": run, "term": term, "dup": t.draw(3, "dup") == 2, "recover": False})
+                path.append({"running": run, "term": term, "dup": t.draw(3, "dup") == 2, "recover": False, "dup_running": t.draw(4, "dup.running") == 3})
             else:
-                path.append({"running": run, "term": ("FAILED", None)[t.draw(2, "viaFailed")], "dup": t.draw(3, "dup") == 2, "recover": True})
+                path.append({"running": run, "term": ("FAILED", None)[t.draw(2, "viaFailed")], "dup": t.draw(3, "dup") == 2, "recover": True, "dup_running": t.draw(4, "dup.running") == 3})
         jobs.append({"name": f"/s{j % 3}/0.{j}", "targets": targets, "req": req, "path": path,
                      # measured usage of the job's directories never exceeds what the job declared
                      # (a job writing more than it declared makes reserved+measured exceed the capacity
                      # and Storage.__sub__ raise inside _is_valid: outside the listed properties)
                      "usage": (int(req[2] * MB) // 4 * t.draw(5, "u.out"), int(req[3] * MB) // 4 * t.draw(5, "u.tmp"))})
-    return {"deps": deps, "wrapper": wrapper, "jobs": jobs, "retry_delay": (0, 0, 5)[t.draw(3, "retry_delay")]}
+    return {"deps": deps, "wrapper": wrapper, "jobs": jobs, "retry_delay": (0, 0, 5)[t.draw(3, "retry_delay")],
+            "find_faults": t.draw(4, "find.faults") == 3}
 
 
 class Scenario:
@@ -249,6 +261,7 @@ class Scenario:
         self.measured = defaultdict(float)  # (location, mount) -> MB measured at releases
         self.placements = []
         self.last_change = 0.0
+        self.crashed = False
 
     # -- setup ---------------------------------------------------------------------------------
     async def setup(self):
@@ -262,6 +275,8 @@ class Scenario:
             base = "j" + j["name"].rsplit(".", 1)[1]
             usage[f"{base}/out"] = j["usage"][0]
             usage[f"{base}/tmp"] = j["usage"][1]
+        if sc.get("find_faults"):
+            usage["__fault__"] = 1
         self.cfgs = {}
         for d in sc["deps"]:
             cfg = DeploymentConfig(name=d["name"], type="sim", config={"locations": d["locs"], "usage": usage}, lazy=False, workdir=d["workdir"])
@@ -378,6 +393,23 @@ class Scenario:
 
     # -- drivers ------------------------------------------------------------------------------------
     async def driver(self, j):
+        from streamflow.core.exception import WorkflowExecutionException
+
+        try:
+            await self._driver(j)
+        except WorkflowExecutionException as e:
+            # the scheduler itself failed a request (nothing in these histories is illegal)
+            where = core.repo_frame_of(e.__traceback__)
+            v = Violation("scheduler_exception", f"scheduler raised {type(e).__name__} at {where} for job {j['name']}: {str(e)[:300]}",
+                          signature=f"scheduler_exception:{where}")
+            for p in ("C10", "C11", "C12"):
+                self.findings.append((p, v))
+            self.waiting.discard(j["name"])
+            self.held.pop(j["name"], None)
+            self.done.add(j["name"])
+            self.crashed = True
+
+    async def _driver(self, j):
         sim, sched = self.sim, self.ctx.scheduler
         name = j["name"]
         base = "j" + name.rsplit(".", 1)[1]
@@ -406,6 +438,10 @@ class Scenario:
             if step["running"]:
                 await sim.io("start", name)
                 await sched.notify_status(name, Status.RUNNING)
+                if step.get("dup_running"):
+                    sim.probe("duplicate_running_notification")
+                    await sim.io("start2", name)
+                    await sched.notify_status(name, Status.RUNNING)
             ev = asyncio.Event()
             self.held[name] = ev
             self.last_change = sim.loop.time()
@@ -434,15 +470,9 @@ class Scenario:
         releases = alloc.status in (Status.RUNNING, Status.FIREABLE)
         locs = list(alloc.locations)
         await sched.notify_status(name, status)
-        if releases:
-            j = next(x for x in self.sc["jobs"] if x["name"] == name)
-            mb = (j["usage"][0] + j["usage"][1]) / MB
-            for loc in locs:
-                for ln, c, m, st in self.level_reqs(name, loc.name):
-                    if self.cap[ln]["kind"] == "slots":
-                        self.measured[(ln, os.sep)] += mb
-                    for k in st:
-                        self.measured[(ln, k)] += mb
+        # what the scheduler keeps reserved afterwards is what the connector reported as the measured
+        # usage of the job's directories (recorded by SimConnector.run in sim.info["measured"])
+        self.measured = defaultdict(float, self.sim.info.get("measured", {}))
 
     # -- controller -----------------------------------------------------------------------------------
     def run(self, check_c10=True):
@@ -535,6 +565,8 @@ class Scenario:
 
     def final_checks(self):
         sched = self.ctx.scheduler
+        if self.crashed:
+            return
         # C12: everything that fits some target's total capacity must have been granted
         empty = self.reserved(with_measured=True)
         for j in self.sc["jobs"]:
